@@ -173,8 +173,70 @@ def main_avgconv(cases):
     return out
 
 
+def main_groups(cases):
+    """[h, w, groups, icg, ocg, k, per_axis, bias, act]: one grouped CONV_2D; what convert_conv_groups makes of it: per group
+    the input-channel slice (from the SPLIT), the filter slice (by comparing the group's weights with the source's), the
+    bias slice, whether the fused activation is carried, and the order of the concatenation"""
+    import numpy as np
+    from ethosu.vela import model_reader
+    from ethosu.vela.architecture_features import Accelerator, create_default_arch
+    from ethosu.vela.operation import Op
+    from ethosu.vela.tflite_graph_optimiser import convert_conv_groups
+    arch = create_default_arch(Accelerator.Ethos_U55_128)
+    out = []
+    tmp = tempfile.mkdtemp(prefix="rw_", dir=os.environ.get("VERIF_TMP"))
+    for i, case in enumerate(cases):
+        h, w, groups, icg, ocg, k, per_axis, bias, act = case
+        rng = random.Random(str(case))
+        net = netgen.Net("groups")
+        x = net.input([1, h, w, groups * icg], "int8", 0.05, 3)
+        y = netgen.conv2d(net, rng, x, groups * ocg, (k, k), (1, 1), (1, 1), "SAME", act=["NONE", "RELU", "RELU6"][act],
+                          per_axis=bool(per_axis), bias=bool(bias), groups=groups)
+        net.output(y)
+        path = os.path.join(tmp, "g%d.tflite" % i)
+        open(path, "wb").write(net.build())
+        nng, _ = model_reader.read_model(path, model_reader.ModelReaderOptions())
+        os.remove(path)
+        from ethosu.vela.tflite_model_semantic import TFLiteSemantic
+        op = [o for o in nng.subgraphs[0].get_all_ops() if o.type.is_conv2d_op()][0]
+        TFLiteSemantic().is_operator_semantic_valid(op)        # sets attrs["num_conv_groups"] the way the compiler does
+        op.run_on_npu = True
+        op.set_ifm_ofm_shapes()
+        src_w = np.asarray(op.weights.values).copy()           # HWIO
+        src_b = None if op.bias is None else np.asarray(op.bias.values).copy()
+        src_act = None if op.activation is None else str(op.activation.op_type)
+        res = convert_conv_groups(op, arch, nng)
+        if res.type != Op.ConcatTFLite:
+            out.append({"converted": 0, "num_conv_groups": int(op.attrs.get("num_conv_groups", 0))})
+            continue
+        rows, ok_w, ok_b, acts = [], True, True, []
+        ic_lo = 0
+        for part in res.inputs:
+            conv = part.ops[0]
+            gi = conv.inputs[0].shape[-1]
+            wv = np.asarray(conv.weights.values)
+            # which filters of the source are these?
+            lo = [o_ for o_ in range(src_w.shape[-1] - wv.shape[-1] + 1) if (src_w[..., o_:o_ + wv.shape[-1]] == wv).all()]
+            # (equal filters make the position ambiguous: prefer the slice that continues the previous group's)
+            prev_hi = rows[-1] if rows else 0
+            oc_lo = prev_hi if prev_hi in lo else (lo[0] if lo else -1)
+            if conv.bias is not None and src_b is not None and oc_lo >= 0:
+                ok_b = ok_b and bool((np.asarray(conv.bias.values) == src_b[oc_lo:oc_lo + wv.shape[-1]]).all())
+            elif (conv.bias is None) != (src_b is None):
+                ok_b = False
+            split_index = list(conv.inputs[0].ops[0].outputs).index(conv.inputs[0])
+            rows += [split_index * gi, split_index * gi + gi, oc_lo, oc_lo + wv.shape[-1]]
+            acts.append(None if conv.activation is None else str(conv.activation.op_type))
+        out.append({"converted": 1, "rows": [int(v) for v in rows], "bias_slices_match": ok_b, "activations": acts, "source_activation": src_act})
+    os.rmdir(tmp)
+    return out
+
+
 def main():
     cases = json.load(open(sys.argv[1]))
+    if len(sys.argv) > 3 and sys.argv[3] == "groups":
+        json.dump(main_groups(cases), open(sys.argv[2], "w"))
+        return
     if len(sys.argv) > 3 and sys.argv[3] == "avgconv":
         json.dump(main_avgconv(cases), open(sys.argv[2], "w"))
         return
